@@ -852,6 +852,8 @@ ALPHABETS = {
     "deep": (2, DOCS[:2], False),               # 2 x (2 docs + remove) = 6: long edit ping-pong
     # 2 x (p as v1, p as v2, a document without p, remove) = 8: take-over / drop / re-take chains
     "edit": (2, [DOCS[0], _j({"p": {"SECRET_DATA": {"DESTROY": "ALLOW_OWNER"}}}), DOCS[2]], False),
+    # the same plus a valid document that defines nothing at all: 2 x 5 = 10 letters
+    "edit0": (2, [DOCS[0], _j({"p": {"SECRET_DATA": {"DESTROY": "ALLOW_OWNER"}}}), DOCS[2], "{}"], False),
 }
 
 
@@ -1324,9 +1326,9 @@ def run(ctx):
     for fn in ("w_exhaustive", "w_random_seq", "w_enum_docs", "w_random_docs"):
         dicts.extend(core.run_sharded("vlib.props.c18", fn, by_fn[fn]))
     fdepth = {"edit": ctx.n(8, 11), "small": ctx.n(6, 8), "three": ctx.n(5, 7),
-              "edit-pairs": ctx.n(4, 5), "three-pairs": ctx.n(2, 3)}
+              "edit-pairs": ctx.n(4, 5), "three-pairs": ctx.n(2, 3), "edit0": ctx.n(6, 9)}
     fstats = {}
-    for which in ("edit", "small", "three", "edit-pairs", "three-pairs"):
+    for which in ("edit", "small", "three", "edit-pairs", "three-pairs", "edit0"):
         fd, st = explore_frontier(which, fdepth[which], ns)
         dicts.extend(fd)
         fstats[which] = st
